@@ -593,10 +593,16 @@ func (r *Request) reply(payload []byte) {
 
 func (r *Request) executeHandler() {
 	// Recover from panics inside handlers
+	panicking := true
 	defer func() {
 		v := recover()
 		if v == nil {
-			return
+			if !panicking {
+				return
+			}
+			// A handler called panic(nil), for which recover returns nil
+			// unless the main module declares go 1.21 or later.
+			v = errors.New("panic called with nil argument")
 		}
 
 		var str string
@@ -633,6 +639,12 @@ func (r *Request) executeHandler() {
 		r.s.errorf("Error handling request %s: %s\n\t%s", r.msg.Subject, str, string(debug.Stack()))
 	}()
 
+	r.callHandler()
+	panicking = false
+}
+
+// callHandler calls the handler matching the type and method of the request.
+func (r *Request) callHandler() {
 	hs := r.h
 
 	switch r.rtype {
